@@ -106,7 +106,7 @@ def corpus():
 
 
 def generate(rng, n):
-    out = _grid() + _typed_grid()
+    out = _grid() + _typed_grid() + [c for c in R.typed_special_cases() if c["shape"]["defect"] == "format-text"]
     while len(out) < n:
         out.append(R.gen_reader_case(rng, rng.choice(["valid", "defect", "defect", "adversarial"])))
     return out
